@@ -491,6 +491,9 @@ def main(tier):
     rule_D(ck, units)
     rule_E(ck, units)
     rule_F(ck, units)
+    import c15
+    cu = ir.run_units([dict(name='controls', src=os.path.join(ir.VERIF, 'tus', 'controls.cpp'))], 'C19c')
+    c15.rule_F(ck, units, cu['controls'])      # the readers fill their output containers completely, also when the caller reuses them (shared with C15)
     import c10
     c10.rule_G(ck, units, floor=1, only=('amgcl/io/',))     # a damaged file is reported by a catchable exception, also from the parallel row-sorting loop (shared with C10)
     import c11
